@@ -36,8 +36,8 @@ PLANS = {
         "thorough": [ex("peg2", "peg", 2, 4, alphabet=["a", "b", "E"]), ex("peg3", "peg", 3, 3), rec("pegR", "peg", 20000, 10, 10)],
     },
     "C02": {
-        "quick": [ex("rep2", "rep", 2, 4, alphabet=["a", "b", ","]), rec("repR", "rep", 1500, 7, 9)],
-        "thorough": [ex("rep3", "rep", 3, 4, alphabet=["a", ","]), ex("rep2", "rep", 2, 5, alphabet=["a", "b", ","]), rec("repR", "rep", 20000, 9, 12)],
+        "quick": [ex("repT", "repT", 1, 3, alphabet=["a", ","], modes=["E"]), ex("rep2", "rep", 2, 3, alphabet=["a", "b", ","]), rec("repR", "rep", 2500, 7, 9)],
+        "thorough": [ex("repT", "repT", 1, 5, alphabet=["a", "b", ","]), ex("rep3", "rep", 3, 3, alphabet=["a", ","]), rec("repR", "rep", 30000, 9, 12)],
     },
     "C03": {
         "quick": [ex("peg2", "peg", 2, 3), ex("rep2", "rep", 2, 3, alphabet=["a", ","]), rec("pegR", "peg", 1000, 8, 8)],
